@@ -3,9 +3,9 @@
 NOTE_COMMON = ("Trusted base: python's ast grammar; the documented semantics of pydantic, shapely, scipy, scikit-learn, "
                "numpy, xarray, rasterio and soundfile; NaN ignored in comparisons. The check decides the listed structural "
                "necessary conditions for all inputs; it does not decide value-level behaviour. Summaries are taken modulo the "
-               "normal forms of DESIGN.md 8.6 (helpers absent from the reference name table inlined, canonical conditionals, "
+               "normal forms of DESIGN.md 8.6 / 8.7 (helpers absent from the reference name table inlined, canonical conditionals, "
                "fill-by-loop accumulators as comprehensions, local functions as lambdas); the thorough tier re-runs the "
-               "mutant catalogue and the 161 stored seeded changes (100 defects, 61 behaviour-preserving refactors).")
+               "mutant catalogue, the engine self-test and the 261 stored seeded changes (140 defects, 121 behaviour-preserving refactors). Every check also runs the shared-state rules G.1 / G.2 (memo keys, mutable defaults, class-level containers) on the functions it summarises.")
 
 CLAIMS = {
     "C01": {
